@@ -45,6 +45,7 @@ void Apply(MeshGL64& g, const json& f) {
     if (c == "long") g.halfedgeTangent.resize(12 * nt + 8, 0.25);
     if (c == "nan") g.halfedgeTangent[5] = kNaN;
     if (c == "notMult4") g.halfedgeTangent.push_back(0.25);
+    if (c == "quadmark1") g.halfedgeTangent[4 * 4 + 3] = -1;   // interior-of-quad mark on halfedge 4 only, not on its pair
   }
   c = cls("faceID");
   if (c == "none") g.faceID.clear();
